@@ -38,13 +38,14 @@ structure NInv (hasHook : Bool) (K : Kind) (s : NState) : Prop where
   d1 : ∀ t, (s.thr t).pc = .doneOk → s.bound = some K
   s1 : ∀ x ∈ s.seen, x.2 = some K
   le : s.hookOk ≤ s.hookRuns
+  hh : ∀ t, (s.thr t).pc = .hook → hasHook = true
 
 theorem ninv_init (hasHook : Bool) (K : Kind) : NInv hasHook K ninit := by
   constructor <;> simp [ninit, inGate, inflight]
 
 theorem ninv_step (hasHook : Bool) (K : Kind) (s s' : NState) (a : NAct) (h : NInv hasHook K s)
     (hs : (nsysK hasHook K).step s a = some s') : NInv hasHook K s' := by
-  obtain ⟨ga, gb, kd, b1, b2, h1, c1, c0, c2, d1, s1, le⟩ := h
+  obtain ⟨ga, gb, kd, b1, b2, h1, c1, c0, c2, d1, s1, le, hhk⟩ := h
   cases a with
   | call t k =>
     simp only [nsysK] at hs
@@ -92,6 +93,10 @@ theorem ninv_step (hasHook : Bool) (K : Kind) (s s' : NState) (a : NAct) (h : NI
           · simp only [e, if_false] at hi; exact d1 i hi
         · exact s1
         · exact le
+        · intro i hi; simp only [setN_thr] at hi
+          by_cases e : i = t
+          · simp [e] at hi
+          · simp only [e, if_false] at hi; exact hhk i hi
       · cases hs
     · cases hs
   | lockGate t =>
@@ -105,7 +110,7 @@ theorem ninv_step (hasHook : Bool) (K : Kind) (s s' : NState) (a : NAct) (h : NI
     split at hs
     · rename_i hp
       cases hs
-      refine ⟨ga, gb, kd, b1, b2, h1, c1, c0, c2, d1, ?_, le⟩
+      refine ⟨ga, gb, kd, b1, b2, h1, c1, c0, c2, d1, ?_, le, hhk⟩
       intro x hx
       simp only [List.mem_cons] at hx
       rcases hx with hx | hx
@@ -158,11 +163,16 @@ theorem ninv_step (hasHook : Bool) (K : Kind) (s s' : NState) (a : NAct) (h : NI
           · simp only [e, if_false] at hi; exact d1 i hi
         · exact s1
         · exact le
+        · intro i hi; simp only [setN_thr] at hi
+          by_cases e : i = t
+          · simp [e] at hi
+          · simp only [e, if_false] at hi; exact hhk i hi
       · rename_i hb
         rw [hk] at hb
         have common : ∀ (p : NPc), (p = .hook ∨ p = .commit) → (p = .commit → hasHook = false) →
+            (p = .hook → hasHook = true) →
             NInv hasHook K (setN s t { (s.thr t) with pc := p }) := by
-          intro p hpp hnh
+          intro p hpp hnh hhook_of
           have hin : inGate p = true := by rcases hpp with h | h <;> rw [h] <;> rfl
           constructor
           · intro i hi; simp only [setN_gate] at hi; simp only [setN_thr]
@@ -196,11 +206,22 @@ theorem ninv_step (hasHook : Bool) (K : Kind) (s s' : NState) (a : NAct) (h : NI
             · simp only [e, if_false] at hi; exact d1 i hi
           · exact s1
           · exact le
+          · intro i hi; simp only [setN_thr] at hi
+            by_cases e : i = t
+            · simp only [e, if_true] at hi
+              cases hhv : hasHook with
+              | true => rfl
+              | false =>
+                rcases hpp with h | h
+                · exact absurd hhv (by simpa using hhook_of h)
+                · rw [h] at hi; cases hi
+            · simp only [e, if_false] at hi; exact hhk i hi
         split at hs
-        · cases hs; exact common .hook (Or.inl rfl) (fun h => by cases h)
+        · rename_i hht
+          cases hs; exact common .hook (Or.inl rfl) (fun h => by cases h) (fun _ => hht)
         · rename_i hh
           cases hs
-          exact common .commit (Or.inr rfl) (fun _ => by simpa using hh)
+          exact common .commit (Or.inr rfl) (fun _ => by simpa using hh) (fun h => by cases h)
     · cases hs
   | hookRun t ok =>
     simp only [nsysK, nstep] at hs
@@ -214,15 +235,7 @@ theorem ninv_step (hasHook : Bool) (K : Kind) (s s' : NState) (a : NAct) (h : NI
         cases hc : inGate (s.thr i).pc with
         | false => rfl
         | true => have := gb i hc; rw [hg] at this; exact absurd (Option.some.inj this).symm hi
-      have hhook : hasHook = true := by
-        cases hh : hasHook with
-        | true => rfl
-        | false =>
-          -- a thread reaches `hook` only when a hook is installed: with none, hookRuns stays 0 …
-          exact absurd rfl (fun _ : True = True => by
-            have := c0 hh; exact False.elim (by
-              -- … but nothing forbids pc = hook syntactically; rule it out by the kind of step that leads here
-              exact hookless_unreachable hasHook K s t hh ⟨ga, gb, kd, b1, b2, h1, c1, c0, c2, d1, s1, le⟩ hp))
+      have hhook : hasHook = true := hhk t hp
       split at hs
       · cases hs
         constructor
@@ -254,6 +267,7 @@ theorem ninv_step (hasHook : Bool) (K : Kind) (s s' : NState) (a : NAct) (h : NI
           · simp only [e, if_false] at hi; exact d1 i hi
         · exact s1
         · simp only [setN_hookOk, setN_hookRuns]; omega
+        · intro i _; exact hhook
       · cases hs
         constructor
         · intro i hi; simp at hi
@@ -286,6 +300,7 @@ theorem ninv_step (hasHook : Bool) (K : Kind) (s s' : NState) (a : NAct) (h : NI
           · simp only [e, if_false] at hi; exact d1 i hi
         · exact s1
         · simp only [setN_hookOk, setN_hookRuns]; omega
+        · intro i _; exact hhook
     · cases hs
   | commit t =>
     simp only [nsysK, nstep] at hs
@@ -295,7 +310,8 @@ theorem ninv_step (hasHook : Bool) (K : Kind) (s s' : NState) (a : NAct) (h : NI
       have hk : (s.thr t).kind = K := kd t (by rw [hp]; simp)
       have hnb : s.bound ≠ some K := h1 t (Or.inr hp)
       have hc0 : s.commits = 0 := by
-        have := b2.not.1 hnb; omega
+        have : ¬ 1 ≤ s.commits := fun h => hnb (b2.2 h)
+        omega
       have hother : ∀ i, i ≠ t → inGate (s.thr i).pc = false := by
         intro i hi
         cases hc : inGate (s.thr i).pc with
@@ -330,6 +346,223 @@ theorem ninv_step (hasHook : Bool) (K : Kind) (s s' : NState) (a : NAct) (h : NI
       · intro i _; simp [hk]
       · exact s1
       · exact le
+      · intro i hi; simp only [setN_thr] at hi
+        by_cases e : i = t
+        · simp [e] at hi
+        · simp only [e, if_false] at hi; exact hhk i hi
     · cases hs
+
+/-! ### sync.Once cells -/
+
+@[simp] theorem setO_pc (s : OState) (t : Nat) (p : OPc) (i : Nat) :
+    (setO s t p).pc i = if i = t then p else s.pc i := rfl
+
+structure OInv (v : Nat) (s : OState) : Prop where
+  ra : ∀ t, s.running = some t → s.pc t = .computing
+  rb : ∀ t, s.pc t = .computing → s.running = some t
+  nd : ∀ t, s.pc t = .computing → s.done = false
+  d0 : s.done = false → s.computes = 0
+  d1 : s.done = true → s.computes = 1 ∧ s.value = some v
+  af : ∀ t, s.pc t = .after → s.done = true
+  rd : ∀ x ∈ s.reads, x.2 = some v
+
+theorem oinv_init (v : Nat) : OInv v oinit := by
+  constructor <;> simp [oinit]
+
+theorem oinv_step (v : Nat) (s s' : OState) (a : OAct) (h : OInv v s) (hs : ostep v s a = some s') :
+    OInv v s' := by
+  obtain ⟨ra, rb, nd, d0, d1, af, rd⟩ := h
+  cases a with
+  | enter t =>
+    simp only [ostep] at hs
+    split at hs
+    · rename_i hp
+      cases hs
+      have hnr : s.running ≠ some t := by intro hr; have := ra t hr; rw [hp] at this; cases this
+      refine ⟨?_, ?_, ?_, d0, d1, ?_, rd⟩
+      · intro i hi; simp only [setO_pc]
+        by_cases e : i = t
+        · subst e; exact absurd hi hnr
+        · simp only [e, if_false]; exact ra i hi
+      · intro i hi; simp only [setO_pc] at hi
+        by_cases e : i = t
+        · simp only [e, if_true] at hi; split at hi <;> cases hi
+        · simp only [e, if_false] at hi; exact rb i hi
+      · intro i hi; simp only [setO_pc] at hi
+        by_cases e : i = t
+        · simp only [e, if_true] at hi; split at hi <;> cases hi
+        · simp only [e, if_false] at hi; exact nd i hi
+      · intro i hi; simp only [setO_pc] at hi
+        by_cases e : i = t
+        · simp only [e, if_true] at hi
+          by_cases hd : s.done = true
+          · exact hd
+          · simp [hd] at hi
+        · simp only [e, if_false] at hi; exact af i hi
+    · cases hs
+  | begin t =>
+    simp only [ostep] at hs
+    split at hs
+    · rename_i hg
+      obtain ⟨hp, hr, hd⟩ := hg
+      cases hs
+      have hnone : ∀ i, s.pc i ≠ .computing := by
+        intro i hi; have := rb i hi; rw [hr] at this; cases this
+      refine ⟨?_, ?_, ?_, d0, d1, ?_, rd⟩
+      · intro i hi
+        have hti : t = i := Option.some.inj hi
+        subst hti; simp
+      · intro i hi; simp only [setO_pc] at hi
+        by_cases e : i = t
+        · subst e; rfl
+        · simp only [e, if_false] at hi; exact absurd hi (hnone i)
+      · intro i _; exact hd
+      · intro i hi; simp only [setO_pc] at hi
+        by_cases e : i = t
+        · simp [e] at hi
+        · simp only [e, if_false] at hi; exact af i hi
+    · cases hs
+  | pass t =>
+    simp only [ostep] at hs
+    split at hs
+    · rename_i hg
+      obtain ⟨hp, hr, hd⟩ := hg
+      cases hs
+      refine ⟨?_, ?_, ?_, d0, d1, ?_, rd⟩
+      · intro i hi
+        have : s.running = some i := hi
+        rw [hr] at this; cases this
+      · intro i hi; simp only [setO_pc] at hi
+        by_cases e : i = t
+        · simp [e] at hi
+        · simp only [e, if_false] at hi; exact rb i hi
+      · intro i hi; simp only [setO_pc] at hi
+        by_cases e : i = t
+        · simp [e] at hi
+        · simp only [e, if_false] at hi; exact nd i hi
+      · intro i hi; simp only [setO_pc] at hi
+        by_cases e : i = t
+        · exact hd
+        · simp only [e, if_false] at hi; exact af i hi
+    · cases hs
+  | finish t =>
+    simp only [ostep] at hs
+    split at hs
+    · rename_i hp
+      have hr := rb t hp
+      have hd := nd t hp
+      have hc := d0 hd
+      have hother : ∀ i, i ≠ t → s.pc i ≠ .computing := by
+        intro i hi hc'; have := rb i hc'; rw [hr] at this; exact hi (Option.some.inj this).symm
+      cases hs
+      refine ⟨?_, ?_, ?_, ?_, ?_, ?_, rd⟩
+      · intro i hi; cases hi
+      · intro i hi; simp only [setO_pc] at hi
+        by_cases e : i = t
+        · simp [e] at hi
+        · simp only [e, if_false] at hi; exact absurd hi (hother i e)
+      · intro i hi; simp only [setO_pc] at hi
+        by_cases e : i = t
+        · simp [e] at hi
+        · simp only [e, if_false] at hi; exact absurd hi (hother i e)
+      · intro h0; cases h0
+      · intro _; exact ⟨by simp [setO, hc], rfl⟩
+      · intro i _; rfl
+    · cases hs
+  | read t =>
+    simp only [ostep] at hs
+    split at hs
+    · rename_i hp
+      cases hs
+      refine ⟨ra, rb, nd, d0, d1, af, ?_⟩
+      intro x hx
+      simp only [List.mem_cons] at hx
+      rcases hx with hx | hx
+      · rw [hx]; exact (d1 (af t hp)).2
+      · exact rd x hx
+    · cases hs
+
+/-! ### Lock-set discipline: two accesses by different threads are ordered by the mutex -/
+
+/-- From a holder other than `b`, the trace can reach an access of `b` to `f` only through an
+acquisition of `l` by `b`. -/
+theorem good_needs_acquire (f l b : Nat) (w : Bool) (post : List Ev) :
+    ∀ (mid : List Ev) (h : Option Nat), h ≠ some b → Good f l h (mid ++ .acc b f w :: post) →
+      ∃ m2 m3, mid = m2 ++ .acq b l :: m3
+  | [], h, hne, hg => by
+    simp only [List.nil_append, Good] at hg
+    exact absurd (hg.1 trivial) hne
+  | .acq t l' :: mid, h, hne, hg => by
+    simp only [List.cons_append, Good] at hg
+    by_cases e : l' = l
+    · simp only [e, if_true] at hg
+      by_cases et : t = b
+      · subst et; subst e; exact ⟨[], mid, by simp⟩
+      · obtain ⟨m2, m3, hm⟩ := good_needs_acquire f l b w post mid (some t) (by simpa using et) hg.2
+        exact ⟨.acq t l' :: m2, m3, by rw [hm]; rfl⟩
+    · simp only [e, if_false] at hg
+      obtain ⟨m2, m3, hm⟩ := good_needs_acquire f l b w post mid h hne hg
+      exact ⟨.acq t l' :: m2, m3, by rw [hm]; rfl⟩
+  | .rel t l' :: mid, h, hne, hg => by
+    simp only [List.cons_append, Good] at hg
+    by_cases e : l' = l
+    · simp only [e, if_true] at hg
+      obtain ⟨m2, m3, hm⟩ := good_needs_acquire f l b w post mid none (by simp) hg.2
+      exact ⟨.rel t l' :: m2, m3, by rw [hm]; rfl⟩
+    · simp only [e, if_false] at hg
+      obtain ⟨m2, m3, hm⟩ := good_needs_acquire f l b w post mid h hne hg
+      exact ⟨.rel t l' :: m2, m3, by rw [hm]; rfl⟩
+  | .acc t f' w' :: mid, h, hne, hg => by
+    simp only [List.cons_append, Good] at hg
+    obtain ⟨m2, m3, hm⟩ := good_needs_acquire f l b w post mid h hne hg.2
+    exact ⟨.acc t f' w' :: m2, m3, by rw [hm]; rfl⟩
+
+/-- While `a` holds `l`, an access of another thread `b` to `f` can only come after `a` released
+`l` and `b` then acquired it. -/
+theorem good_release_then_acquire (f l a b : Nat) (hab : a ≠ b) (w : Bool) (post : List Ev) :
+    ∀ (mid : List Ev), Good f l (some a) (mid ++ .acc b f w :: post) →
+      ∃ m1 m2 m3, mid = m1 ++ .rel a l :: (m2 ++ .acq b l :: m3)
+  | [], hg => by
+    simp only [List.nil_append, Good] at hg
+    exact absurd (Option.some.inj (hg.1 trivial)) hab
+  | .acq t l' :: mid, hg => by
+    simp only [List.cons_append, Good] at hg
+    by_cases e : l' = l
+    · simp only [e, if_true] at hg; cases hg.1
+    · simp only [e, if_false] at hg
+      obtain ⟨m1, m2, m3, hm⟩ := good_release_then_acquire f l a b hab w post mid hg
+      exact ⟨.acq t l' :: m1, m2, m3, by rw [hm]; rfl⟩
+  | .rel t l' :: mid, hg => by
+    simp only [List.cons_append, Good] at hg
+    by_cases e : l' = l
+    · simp only [e, if_true] at hg
+      have hta : t = a := (Option.some.inj hg.1).symm
+      obtain ⟨m2, m3, hm⟩ := good_needs_acquire f l b w post mid none (by simp) hg.2
+      exact ⟨[], m2, m3, by rw [hm, hta, e]; rfl⟩
+    · simp only [e, if_false] at hg
+      obtain ⟨m1, m2, m3, hm⟩ := good_release_then_acquire f l a b hab w post mid hg
+      exact ⟨.rel t l' :: m1, m2, m3, by rw [hm]; rfl⟩
+  | .acc t f' w' :: mid, hg => by
+    simp only [List.cons_append, Good] at hg
+    obtain ⟨m1, m2, m3, hm⟩ := good_release_then_acquire f l a b hab w post mid hg.2
+    exact ⟨.acc t f' w' :: m1, m2, m3, by rw [hm]; rfl⟩
+
+/-- Splitting off a prefix: the holder after it. -/
+theorem good_after_prefix (f l : Nat) : ∀ (pre : List Ev) (h : Option Nat) (rest : List Ev),
+    Good f l h (pre ++ rest) → ∃ h', Good f l h' rest
+  | [], h, rest, hg => ⟨h, hg⟩
+  | .acq t l' :: pre, h, rest, hg => by
+    simp only [List.cons_append, Good] at hg
+    by_cases e : l' = l
+    · simp only [e, if_true] at hg; exact good_after_prefix f l pre _ rest hg.2
+    · simp only [e, if_false] at hg; exact good_after_prefix f l pre _ rest hg
+  | .rel t l' :: pre, h, rest, hg => by
+    simp only [List.cons_append, Good] at hg
+    by_cases e : l' = l
+    · simp only [e, if_true] at hg; exact good_after_prefix f l pre _ rest hg.2
+    · simp only [e, if_false] at hg; exact good_after_prefix f l pre _ rest hg
+  | .acc t f' w' :: pre, h, rest, hg => by
+    simp only [List.cons_append, Good] at hg
+    exact good_after_prefix f l pre _ rest hg.2
 
 end Vgi.LazyInit
